@@ -324,9 +324,8 @@ class Statement(object):
 
             start_address = statements[this_index].code_pkg.address.int
             jump_amount = relative_address - start_address - self.code_pkg.size
-            if self.pcr_size_hint == 4:
-                # 16-bit offsets wrap around the 64K address space
-                jump_amount = ((jump_amount + 0x8000) % 0x10000) - 0x8000
+            # Addresses wrap around at 64K, so the offset is the signed 16-bit equivalent
+            jump_amount = ((jump_amount + 0x8000) % 0x10000) - 0x8000
             self.code_pkg.additional = NumericValue(jump_amount, size_hint=self.pcr_size_hint)
 
     def fit_operand_to_reserved_size(self):
